@@ -70,6 +70,12 @@ AEAD_PROPS = ["C01", "C02", "C03", "C04", "C06"]
 SIV_PROPS = ["C08", "C09", "C04", "C06"]
 
 
+def props_for(mode, kind):
+    if mode == "aead":
+        return ["C01", "C02", "C06"] if kind == "encrypt" else ["C01", "C03", "C04", "C06"]
+    return ["C08", "C09", "C06"] if kind == "encrypt" else ["C08", "C04", "C06"]
+
+
 def top_loop(fn, own_pc, nnn, enc, extra_inv):
     if enc:
         rem, inp, outp, line = "mlen", "m", "c", r"while \(mlen >= 4\)"
@@ -92,7 +98,7 @@ for nnn in (128, 192, 256):
                                           (3, "siv", "encrypt", True, 5), (4, "siv", "decrypt", False, 1)):
         fn = "tinyjambu_%d_%s_%s" % (nnn, mode, kind)
         src = "repo:src/tinyjambu-%d-%s.c" % (nnn, mode)
-        props = AEAD_PROPS if mode == "aead" else SIV_PROPS
+        props = props_for(mode, kind)
         extra = ""
         if prog == 2 or prog == 4:
             extra = "M.in[M.len + tjv_t] == M.rtagv[tjv_t]"
@@ -131,7 +137,7 @@ for nnn in (128, 192, 256):
     for prog, mode, kind in ((1, "aead", "encrypt"), (2, "aead", "decrypt"), (3, "siv", "encrypt"), (4, "siv", "decrypt")):
         fn = "tinyjambu_%d_%s_%s" % (nnn, mode, kind)
         src = "repo:src/tinyjambu-%d-%s.c" % (nnn, mode)
-        props = AEAD_PROPS if mode == "aead" else SIV_PROPS
+        props = props_for(mode, kind)
         JOBS.append({
             "name": "%s%d.%s.grid" % (mode, nnn, kind[:3]),
             "files": ["harness/h_aead.c", "stubs/mon.c", src, common, util],
@@ -142,4 +148,17 @@ for nnn in (128, 192, 256):
             "tags": spec_tags(props), "props": props, "default_props": props,
             "unwind": 40, "timeout": 300, "cost": 30, "mem_gb": 6, "mem_share": 0.3,
             "bounded": "concrete (adlen, mlen) grid: adlen in {0,1,2,3,4,7} x mlen 5, adlen 3 x mlen in {0,1,2,3,4,6,7,8,11,34}, in place and separate; all keys, nonces and data symbolic; whole real call tree except the permutation (loops fully unwound, unwinding assertions on)",
+        })
+
+for nnn in (128, 192, 256):
+    for mode, siv in (("aead", 0), ("siv", 1)):
+        props = ["C03", "C06"] if mode == "aead" else ["C08", "C06"]
+        JOBS.append({
+            "name": "%s%d.dec.short" % (mode, nnn),
+            "files": ["harness/h_aead_short.c", "stubs/mon.c", "repo:src/tinyjambu-%d-%s.c" % (nnn, mode)],
+            "defs": ["NNN=%d" % nnn, "PROG=99", "TJV_LEAF_STUBS", "SIV=%d" % siv],
+            "functions": ["tinyjambu_%d_%s_decrypt" % (nnn, mode)],
+            "tags": spec_tags(props), "props": props, "default_props": props,
+            "unwind": 40, "cost": 3, "mem_gb": 4, "mem_share": 0.25,
+            "unbounded": "all clen in 0..7 (symbolic), all other arguments",
         })
